@@ -30,15 +30,32 @@ def in_class(toks, text):
     return True
 
 
+def marker_string_cases():
+    """strings that contain comment markers, as the last parameter of a keyword or block with further tokens on the same line:
+    the writer's bookkeeping of "the line ends in a // comment" must not take them for comments"""
+    out = []
+    hdr = 'ASAP2_VERSION 1 71\n/begin PROJECT p ""\n  /begin MODULE m ""\n'
+    ftr = '  /end MODULE\n/end PROJECT\n'
+    for st in ('km//h', 'http://example.com/spec', '/* x', '*/', '// tail', 'a /* b */ // c', '"" //', "'//'"):
+        q = '"' + st.replace('"', '""') + '"'
+        body = ('    /begin MEASUREMENT m1 "" UBYTE NO_COMPU_METHOD 0 0 0 255\n'
+                '      PHYS_UNIT %s ECU_ADDRESS 0x1000\n'
+                '      /begin ANNOTATION ANNOTATION_ORIGIN %s /end ANNOTATION\n'
+                '      FORMAT %s /end MEASUREMENT\n'
+                '    /begin MEASUREMENT m2 %s UBYTE NO_COMPU_METHOD 0 0 0 255 /end MEASUREMENT\n') % (q, q, q, q)
+        out.append({'text': hdr + body + ftr, 'strict': True, 'cycles': 1, 'kind': 'marker-string'})
+    return out
+
+
 def gen_cases(rng, tier):
-    cases = []
+    cases = marker_string_cases()
     n = 300 if tier == 'quick' else 8000
     tries = 0
     while len(cases) < n and tries < n * 6:
         tries += 1
         lay = docgen.Layout(mode=rng.choice(['canonical', 'random']), crlf=False, comments=rng.choice([None, 'block-level']))
         node, text, toks = docs.random_doc(rng, size=rng.choice(['tiny', 'small', 'small', 'medium']), layout=lay,
-                                           ifdata=rng.choice([None, 'unknown', 'empty']), strings=['plain', 'empty', 'escapes', 'dquote', 'utf8'],
+                                           ifdata=rng.choice([None, 'unknown', 'empty']), strings=['plain', 'empty', 'escapes', 'dquote', 'utf8', 'mixed'],
                                            a2ml=rng.choice([None, None, 'simple']))
         if '/end A2ML' in text and rng.random() < 0.7:
             # empty lines inside the A2ML text, also directly in front of the line of /end A2ML
